@@ -10,6 +10,7 @@ square root, for every size `n`, every budget `max_iter`, every start vector and
 -/
 import LinOp.C09.ProofsRun
 import LinOp.C09.ProofsPost
+import LinOp.C09.ProofsScale
 import LinOp.Generated.C09Consts
 
 set_option linter.unusedSectionVars false
@@ -230,7 +231,46 @@ theorem lanczos_full_root (hsq : ∀ x : K, 0 ≤ x → ops.sqrt x * ops.sqrt x 
     lanczosRoot ops Q V θ * (lanczosRoot ops Q V θ)ᵀ = A + c • 1 :=
   LinOp.C09.lanczos_full_root ops hsq Q A T V θ c hQ hP hV hθ
 
+/-! ### the tridiagonal jitter is relative (no absolute floor): homogeneity -/
+
+/-- `jitter = tridiagonal_jitter · min(diag T)` is homogeneous of degree 1: `c·T + jitter(c·T) = c·(T + jitter(T))`
+for every `c > 0`, every size and every `T`. -/
+theorem tridiagonal_jitter_homogeneous {m : Nat} (c : K) (hc : 0 < c) (jit : K) (T : Mat K m m) :
+    jitterOf ltb jit (fun a b => c * T a b) = c * jitterOf ltb jit T ∧
+    jitteredT ltb jit (fun a b => c * T a b) = fun a b => c * jitteredT ltb jit T a b :=
+  ⟨jitter_homogeneous c hc jit T, jitteredT_homogeneous c hc jit T⟩
+
+/-- `lanczos_root(c·A) = √c · lanczos_root(A)` in exact arithmetic (`c > 0`): Lanczos on `c·A` with the same start
+vector gives the same `Q` and `c·T`; if `(θ, V)` is the eigendecomposition of the jittered `T` then `(c·θ, V)` is one
+of the jittered `c·T`, and the assembled root (masked Ritz values included) is `√c` times the root of `A`. -/
+theorem lanczos_root_homogeneous {m : Nat} (hs : SqrtLaw ops) (c : K) (hc : 0 < c) (jit : K)
+    (Q : Matrix (Fin n) (Fin m) K) (T : Mat K m m) (V : Matrix (Fin m) (Fin m) K) (θ : Fin m → K)
+    (hE : V * Matrix.diagonal θ * Vᵀ = Matrix.of (jitteredT ltb jit T)) :
+    V * Matrix.diagonal (fun j => c * θ j) * Vᵀ = Matrix.of (jitteredT ltb jit (fun a b => c * T a b)) ∧
+    lanczosRoot ops Q V (fun j => c * θ j) = ops.sqrt c • lanczosRoot ops Q V θ := by
+  refine ⟨?_, lanczos_root_scaled hs c hc Q V θ⟩
+  rw [eig_scaled c V _ θ hE]
+  have h := jitteredT_homogeneous c hc jit T
+  ext a b
+  simp only [Matrix.smul_apply, Matrix.of_apply, smul_eq_mul, h]
+
 /-! ### constants and tests of the source, regenerated on every run -/
+
+/-- The jitter statements of `RootDecomposition.forward` and `Diagonalization.forward` are the documented relative
+jitter `tridiagonal_jitter · min(diag t_mat)` — no clamp, no floor, no absolute term — added before
+`lanczos_tridiag_to_diag`. -/
+theorem generated_jitter :
+    Generated.C09.rootJitter =
+      ["mins = to_linear_operator(t_mat)._diagonal().min(dim=-1, keepdim=True)[0].unsqueeze(-1)",
+       "jitter_mat = settings.tridiagonal_jitter.value() * mins * torch.eye(t_mat.size(-1), device=t_mat.device, dtype=t_mat.dtype).expand_as(t_mat)",
+       "eigenvalues, eigenvectors = lanczos.lanczos_tridiag_to_diag(t_mat + jitter_mat)"] ∧
+    Generated.C09.diagJitter =
+      ["mins = torch.diagonal(t_mat, dim1=-1, dim2=-2).min(dim=-1, keepdim=True)[0]",
+       "jitter_val = settings.tridiagonal_jitter.value()",
+       "jitter_mat = torch.diag_embed(jitter_val * mins).expand_as(t_mat)",
+       "eigenvalues, eigenvectors = lanczos.lanczos_tridiag_to_diag(t_mat + jitter_mat)"] := by
+  decide +kernel
+
 
 /-- The literals and comparison shapes the model hard-wires are the ones in the working tree:
 `tol = 1e-5`, `range(10)`, `beta_curr.abs() > 1e-6`, `inner_products > tol` (no absolute value), the
